@@ -103,6 +103,12 @@ func gen(seed uint64, tier string) {
 	for i := 0; i < n; i++ {
 		fmt.Printf("unary %s %s %s H %s T %s\n", lp.Pick(r, steps), lp.Pick(r, steps), lp.Pick(r, steps), genMD(r), genMD(r))
 	}
+	// the stream handler: Decode (request message and metadata, before the endpoint) then Handle (the endpoint with the stream)
+	for _, d := range steps {
+		for _, e := range steps {
+			fmt.Printf("stream %s %s\n", d, e)
+		}
+	}
 }
 
 type spec struct {
@@ -225,6 +231,25 @@ func run() {
 	defer out.Flush()
 	for in.Scan() {
 		line := strings.TrimSpace(in.Text())
+		if t := strings.Fields(line); len(t) == 3 && t[0] == "stream" {
+			// what the generated server does: Decode, and only then Handle; errors go through EncodeError
+			ran.Store(0)
+			h := goagrpc.NewStreamHandler(
+				func(ctx context.Context, req any) (any, error) { ran.Add(1); return nil, failure(t[2], "endpoint") },
+				func(ctx context.Context, pb any, md metadata.MD) (any, error) { return "payload", failure(t[1], "decoder") })
+			_, err := h.Decode(context.Background(), wrapperspb.String("x"))
+			if err == nil {
+				err = h.Handle(context.Background(), "stream")
+			}
+			code := 0
+			if err != nil {
+				st, _ := status.FromError(goagrpc.EncodeError(err))
+				code = int(st.Code())
+			}
+			fmt.Fprintf(out, "code=%d ran=%d\n", code, ran.Load())
+			out.Flush()
+			continue
+		}
 		if _, err := parse(line); err != nil {
 			fmt.Fprintln(out, "bad-op")
 			out.Flush()
